@@ -85,6 +85,12 @@ CHECKS = {
         note="watchdog hits are inconclusive, never violations; delayed-backed queries are excluded from cross-build name comparison",
         ref="§3 C19",
     ),
+    "C11": dict(
+        technique="differential property-based enumeration: sources x partition-wise chains x selections against the per-partition outputs of the unoptimized lowering",
+        text="12 source kinds x 21 operator chains x ~30 selections (partitions[...] single/slice/reordered/repeated/nested, get_partition, to_delayed, head(n, npartitions=k), tail(n)); every selected partition must equal the corresponding partition of the unoptimized plan, with truthful npartitions/divisions. Bounded enumeration; known finding D47 (IO fusion changes the partition count).",
+        note="row order inside shuffled partitions compared as multisets; head/tail of sorted frames accept the documented per-partition answer or the exact global one",
+        ref="§3 C11",
+    ),
     "C12": dict(
         technique="bounded-exhaustive property-based enumeration of shuffle routes with invariant oracles (permutation, co-location, cross-frame consistency)",
         text="Every (n_in, n_out, max_branch) route up to the bound x method x key kind is executed and checked against invariants over the per-partition outputs; the int-vs-float consistency is observed directly on the two shuffles a hash join plans. Exhaustive inside the stated box only.",
